@@ -831,6 +831,14 @@ class Explorer:
             if h.name and h.type is not None and not isinstance(h.type, ast.Tuple):
                 out.append((f"isinstance({h.name}, {ast.unparse(h.type)})", True))
                 out.append((f"{h.name} is None", False))
+            if h.name:
+                # a clause is reached only if no earlier clause of the same `try` matched
+                tr_ = getattr(h, "_parent", None)
+                if isinstance(tr_, ast.Try) and any(x is h for x in tr_.handlers):
+                    for e_ in tr_.handlers[:[x is h for x in tr_.handlers].index(True)]:
+                        for ty in (e_.type.elts if isinstance(e_.type, ast.Tuple) else [e_.type] if e_.type is not None else []):
+                            if isinstance(ty, (ast.Name, ast.Attribute)):
+                                out.append((f"isinstance({h.name}, {ast.unparse(ty)})", False))
             return out
         if node.kind != "stmt":
             return out
@@ -855,6 +863,10 @@ class Explorer:
                         out.append((nk, p))
             out.append((f"{vs} is None", False))
             return out
+        if isinstance(s, ast.Assign) and len(s.targets) == 1 and isinstance(s.targets[0], ast.Attribute) and isinstance(s.value, ast.Name) \
+                and not any(isinstance(x, (ast.Call, ast.Subscript)) for x in ast.walk(s.targets[0])):
+            # `self._f = x`: until either is rewritten (or the task suspends) a test on x is a test on the field
+            return [(f"{SAME}({s.value.id}, {ast.unparse(subst(s.targets[0], self.aliases))})", True)]
         if isinstance(s, ast.Assign) and len(s.targets) == 1 and isinstance(s.targets[0], ast.Name):
             t, v = s.targets[0].id, s.value
         elif isinstance(s, ast.AnnAssign) and s.value is not None and isinstance(s.target, ast.Name):
